@@ -373,7 +373,7 @@ class Fn:
                     out.append(dict(bb=i, idx=j, kind=kind, rv=rv, line=s.get('l')))
             t = b['t']
             if t['k'] == 'call' and t['dest']['l'] == 0 and not t['dest'].get('p'):
-                c = Call(self, i, t)
+                c = self.call_at(i)
                 kind = 'err' if (t.get('decl') == FROM_RESIDUAL) else 'call'
                 out.append(dict(bb=i, idx=None, kind=kind, call=c, line=t.get('l')))
         return out
